@@ -131,7 +131,7 @@ func firstLine(s string) string {
 
 func checkC16(ctx *Ctx) {
 	defer runToOverTo(ctx)
-	ctx.Res.Rule = "random acyclic workflows (1-2 file sources, optional ParamSource, 1-5 processes with 0-2 file in-ports, optional parameter port fed by FromStr or the ParamSource, at most one process without out-ports); for each: Run; every single in-/param-port left unconnected in turn; RunTo over single targets and random target sets by name, by regex and by process; non-trivial = more than one process; distinct by (graph, targets, unplugged port). Checks: refusal before any command, commands executed = exactly the upstream closure with the expected task counts, every process started once."
+	ctx.Res.Rule = "random acyclic workflows (1-2 file sources, optional ParamSource, 1-5 processes with 0-2 file in-ports, optional parameter port fed by FromStr or the ParamSource, at most one process without out-ports); for each: Run; every single in-/param-port left unconnected in turn; RunTo over single targets and random target sets by name, by regex and by process; non-trivial = more than one process; distinct by (graph, targets, unplugged port). Checks: refusal before any command, commands executed = exactly the upstream closure with the expected task counts, every process started once; also: RunTo over connections made with OutPort.To() / OutParamPort.To()."
 	r := NewRng(ctx.Seed)
 	n := 8
 	if ctx.Thorough() {
